@@ -887,7 +887,7 @@ func qGenQuery(rt *rapid.T, tables []*qTable) qQuery {
 }
 
 func qGenQuery0(rt *rapid.T, tables []*qTable) qQuery {
-	form := rapid.SampledFrom([]string{"filter", "filter", "filter", "order", "order", "count", "countpred", "group", "group", "distinct", "join", "join", "join", "join", "join3"}).Draw(rt, "form")
+	form := rapid.SampledFrom([]string{"filter", "filter", "filter", "order", "order", "count", "countpred", "countin", "countin", "group", "group", "distinct", "join", "join", "join", "join", "join3", "joinin"}).Draw(rt, "form")
 	t := tables[rapid.IntRange(0, len(tables)-1).Draw(rt, "table")]
 	refs := qRefs(t, "")
 	from := fmt.Sprintf("{T:%s}", t.Name)
@@ -924,6 +924,65 @@ func qGenQuery0(rt *rapid.T, tables []*qTable) qQuery {
 			}
 		}
 		return qQuery{SQL: fmt.Sprintf("SELECT COUNT(%s) FROM %s", arg, from), Form: form, Tables: []*qTable{t}, Shape: shape}
+	case "countin":
+		// COUNT over a multi-range lookup that mixes present and absent values and leaves no residual
+		// filter: the kv count fast path reads all ranges through one chained iterator
+		if r, ok := qPickIntIndexed(rt, refs); ok {
+			arg := "*"
+			if rapid.IntRange(0, 2).Draw(rt, "countcol") == 0 {
+				arg = refs[rapid.IntRange(0, len(refs)-1).Draw(rt, "col")].Expr
+			}
+			shape := ""
+			if arg != "*" && t.NPK == 0 {
+				shape = "keyless_count_column"
+			}
+			if arg != "*" {
+				shape += " count_column_over_index"
+			}
+			return qQuery{SQL: fmt.Sprintf("SELECT COUNT(%s) FROM %s WHERE %s", arg, from, qGenMultiRange(rt, r)), Form: "countin", Tables: []*qTable{t}, Shape: shape}
+		}
+		return qQuery{SQL: fmt.Sprintf("SELECT COUNT(*) FROM %s%s", from, where(1)), Form: "countpred", Tables: []*qTable{t}}
+	case "joinin":
+		// lookup join driven by a multi-range index scan of the outer table
+		ta := t
+		tb := tables[rapid.IntRange(0, len(tables)-1).Draw(rt, "join.b")]
+		ra, rb := qRefs(ta, "a"), qRefs(tb, "b")
+		pairs := qJoinPairs(ra, rb)
+		if r, ok := qPickIntIndexed(rt, ra); ok && len(pairs) > 0 {
+			p := qPickPair(rt, pairs, "join.on")
+			shape := ""
+			if ta.NPK == 0 || tb.NPK == 0 {
+				shape += " keyless_join"
+			}
+			if p.l.col().Kind == qkDec {
+				shape += " decimal_join_key"
+			}
+			if p.l.col().Kind.caseInsensitive() || p.r.col().Kind.caseInsensitive() {
+				shape += " ci_join_key"
+			}
+			if (p.l.col().Kind == qkBig && p.r.col().Kind == qkUBig) || (p.l.col().Kind == qkUBig && p.r.col().Kind == qkBig) {
+				shape += " mixed_sign_join_key"
+			}
+			for _, tt := range []*qTable{ta, tb} {
+				for _, ix := range tt.Idx {
+					for _, pl := range ix.Prefix {
+						if pl > 0 && !strings.Contains(shape, "prefix_index_join") {
+							shape += " prefix_index_join"
+						}
+					}
+				}
+			}
+			sel := "COUNT(*)"
+			form := "joincount"
+			if rapid.Bool().Draw(rt, "joinin.rows") {
+				_, sel = qProjection(rt, append(append([]qColRef{}, ra...), rb...), nil)
+				form = "join"
+			}
+			return qQuery{SQL: fmt.Sprintf("SELECT /*+ JOIN_ORDER(a,b) LOOKUP_JOIN(a,b) */ %s FROM {T:%s} a INNER JOIN {T:%s} b ON %s = %s WHERE %s",
+				sel, ta.Name, tb.Name, p.l.Expr, p.r.Expr, qGenMultiRange(rt, r)), Form: form, Tables: []*qTable{ta, tb}, Shape: shape}
+		}
+		_, proj := qProjection(rt, refs, nil)
+		return qQuery{SQL: fmt.Sprintf("SELECT %s FROM %s%s", proj, from, where(2)), Form: "filter", Tables: []*qTable{t}}
 	case "countpred":
 		return qQuery{SQL: fmt.Sprintf("SELECT COUNT(*) FROM %s%s", from, where(rapid.IntRange(0, 2).Draw(rt, "depth"))), Form: form, Tables: []*qTable{t}}
 	case "group":
@@ -1017,6 +1076,71 @@ func qGenQuery0(rt *rapid.T, tables []*qTable) qQuery {
 		return qQuery{SQL: fmt.Sprintf("SELECT %s FROM %s%s", proj, from, where(2)), Form: "filter", Tables: []*qTable{t}}
 	}
 	panic("form")
+}
+
+// qPickIntIndexed picks an integer column that leads an index (or the primary key).
+func qPickIntIndexed(rt *rapid.T, refs []qColRef) (qColRef, bool) {
+	var cands []qColRef
+	for _, r := range refs {
+		if r.col().Kind.joinClass() == "int" && r.T.indexedFirst(r.CI) {
+			cands = append(cands, r)
+		}
+	}
+	if len(cands) == 0 {
+		return qColRef{}, false
+	}
+	return cands[rapid.IntRange(0, len(cands)-1).Draw(rt, "intidx.col")], true
+}
+
+// qGenMultiRange builds a predicate on integer column r that becomes three or more disjoint index
+// ranges, some of which match no row: values the column holds mixed with neighbours it does not.
+func qGenMultiRange(rt *rapid.T, r qColRef) string {
+	present := map[string]bool{}
+	var vals []string
+	for _, row := range r.T.allRows() {
+		v := row[r.CI]
+		if v != "NULL" && !present[v] {
+			present[v] = true
+			vals = append(vals, v)
+		}
+	}
+	sort.Strings(vals)
+	draw := func(label string) string {
+		if len(vals) > 0 && rapid.IntRange(0, 9).Draw(rt, label+".present") < 6 {
+			return vals[rapid.IntRange(0, len(vals)-1).Draw(rt, label)]
+		}
+		// an absent neighbour of a present value, or a fresh value
+		if len(vals) > 0 {
+			v := vals[rapid.IntRange(0, len(vals)-1).Draw(rt, label+".near")]
+			var n int64
+			if _, err := fmt.Sscan(v, &n); err == nil && len(v) < 12 {
+				for _, d := range []int64{1, -1, 2, -2} {
+					c := fmt.Sprint(n + d)
+					if !present[c] && !(n+d < 0 && (r.col().Kind == qkUInt || r.col().Kind == qkUBig)) {
+						return c
+					}
+				}
+			}
+		}
+		return qGenLit(rt, r.col().Kind, r.col().PK, label+".fresh")
+	}
+	n := rapid.IntRange(3, 7).Draw(rt, "multirange.n")
+	if rapid.IntRange(0, 3).Draw(rt, "multirange.form") > 0 {
+		var ls []string
+		for i := 0; i < n; i++ {
+			ls = append(ls, draw("multirange.v"))
+		}
+		return fmt.Sprintf("%s IN (%s)", r.Expr, strings.Join(ls, ","))
+	}
+	var parts []string
+	for i := 0; i < n; i++ {
+		if rapid.IntRange(0, 2).Draw(rt, "multirange.between") == 0 {
+			parts = append(parts, fmt.Sprintf("%s BETWEEN %s AND %s", r.Expr, draw("multirange.lo"), draw("multirange.hi")))
+		} else {
+			parts = append(parts, fmt.Sprintf("%s = %s", r.Expr, draw("multirange.v")))
+		}
+	}
+	return "(" + strings.Join(parts, " OR ") + ")"
 }
 
 type qJoinPair struct{ l, r qColRef }
